@@ -433,6 +433,37 @@ func c11JobSplit5(prefixes []string, exactShort int, maxLen int, name string, co
 	}}
 }
 
+// c11JobSplitBytes: texts over {a, space, 0xC3, 0xA9, 0xE2} (the bytes of multi-byte UTF-8 characters, valid and
+// invalid sequences alike: the property is about bytes), bare and embedded before / after pads, at SplitLen 13, 14, 16.
+// "Keeping multi-byte characters intact" is outside the claim; the byte bound, the markers and losslessness are not.
+const c11AB = "a \xc3\xa9\xe2"
+
+func c11JobSplitBytes(prefix string, maxLen int, name string, cost int) Job {
+	return Job{Name: name, Cost: cost, Run: func(jc *JobCtx) *JobResult {
+		return c11RunGuarded(jc, name, func(e *Enum, g *c11Guard) {
+			if c11NoExports(e) {
+				return
+			}
+			n := 0
+			c11Texts(c11AB, prefix, maxLen, func(s string) bool {
+				for _, sl := range []int{13, 14, 16} {
+					g.eval(e, c11Text{S: s}, sl)
+					g.eval(e, c11Text{S: s + "aaaaaaaaaaaaaaaaa"}, sl)
+					g.eval(e, c11Text{S: "aaaaaaaaaaaaaaaaa" + s}, sl)
+					g.eval(e, c11Text{S: "h\xc3\xa9llo w\xc3\xb6rld " + s + " \xe2\x98\x83\xe2\x98\x83\xe2\x98\x83 \xc3\xa9\xc3\xa9\xc3\xa9\xc3\xa9\xc3\xa9\xc3\xa9\xc3\xa9\xc3\xa9\xc3\xa9"}, sl)
+				}
+				n++
+				if n&0x3fff == 0 && (e.TooMany() || jc.Expired()) {
+					e.Incomplete("stopped at text " + Q(s))
+					return false
+				}
+				return true
+			})
+			g.sample(e, c11Text{S: prefix + "\xc3\xa9\xc3\xa9 aaaaaaaaaaaaaaaaa"}, 13)
+		})
+	}}
+}
+
 var c11PeriodicSplitLens = []int{-5, 0, 1, 12, 13, 14, 20, 450, 1000}
 
 // c11Lengths: every length up to dense, then every step-th up to 3000, plus the
@@ -765,6 +796,11 @@ func c11Jobs(tier string) []Job {
 			short = 2
 		}
 		jobs = append(jobs, c11JobSplit5([]string{p}, short, max5, fmt.Sprintf("split/abc5/len<=%d/prefix=%s", max5, Q(p)), pick(300, 1500)))
+	}
+	// (1b') bytes of multi-byte characters: one job per 2-letter prefix (25)
+	maxB := pick(7, 9)
+	for _, p := range c11Words(c11AB, 2) {
+		jobs = append(jobs, c11JobSplitBytes(p, maxB, fmt.Sprintf("split/bytes/len<=%d/prefix=%s", maxB, Q(p)), pick(100, 800)))
 	}
 	// (1c) periodic texts of length 0..3000 at nine SplitLens: five periods per job
 	for i, ch := range c11Chunks(c11Periods(pick(3, 4)), 5) {
